@@ -2,7 +2,7 @@
    Transaction IDs are compared on all 96 bits (the model's id is the whole ID as a number). *)
 From Coq Require Import NArith ZArith List Bool.
 From StunV Require Import Base.ListAux Base.Bytes Base.Outcome Base.Slice Model.Message Model.Agent Model.Client
-  Proofs.ClientProofs Proofs.ClientInvProofs Proofs.ClientDeliverProofs.
+  Proofs.ClientProofs Proofs.ClientInvProofs Proofs.ClientDeliverProofs Model.Run.
 Import ListNotations.
 Open Scope N_scope.
 
@@ -42,3 +42,35 @@ Print Assumptions C12_deliver_spec.
 (* and the transaction found for an ID has that ID (IDs are unique in the table: tinv) *)
 Theorem C12_found_has_id : forall id T t, T_find id T = Some t -> t_id t = id.
 Proof. exact T_find_id. Qed.
+
+(* ... and the delivery happens: a decodable datagram carrying the ID of a registered transaction is handed to
+   that transaction's handler - one invocation, with exactly this datagram - whatever the clock says, however
+   many attempts were made, whatever class or method the message has; and the transaction leaves the table *)
+Theorem C12_deliver_reaches : forall fb c d tid_of m t,
+  decode (set_raw new_msg (slice_of (take 1024 d) [])) = (m, Ok tt) ->
+  ag_closed (c_A c) = false ->
+  T_find (tid_of (m_tid m)) (c_T c) = Some t -> t_calls t = 0 ->
+  snd (c_deliver true fb c d tid_of) = [OInvoke (t_inst t) (t_h t) (HRMsg (take 1024 d))] /\
+  c_T (fst (c_deliver true fb c d tid_of)) = T_remove (tid_of (m_tid m)) (c_T c).
+Proof. exact deliver_reaches. Qed.
+Print Assumptions C12_deliver_reaches.
+
+(* without such a transaction an open client hands it to the fallback handler *)
+Theorem C12_deliver_fallback : forall fb c d tid_of m f,
+  decode (set_raw new_msg (slice_of (take 1024 d) [])) = (m, Ok tt) ->
+  ag_closed (c_A c) = false -> c_closed c = false ->
+  T_find (tid_of (m_tid m)) (c_T c) = None -> c_fb c = Some f ->
+  snd (c_deliver true fb c d tid_of) = [OFallback f (tid_of (m_tid m)) (EMsg (take 1024 d))] /\
+  c_T (fst (c_deliver true fb c d tid_of)) = c_T c.
+Proof. exact deliver_fallback. Qed.
+Print Assumptions C12_deliver_fallback.
+
+(* non-vacuity: a client with one transaction in flight (started at time 0, the clock then moved far past every
+   deadline without a collector tick) receives an error-class message with that ID: the handler gets it *)
+Example C12_reaches_nonvacuous :
+  let req := [0; 1; 0; 0; 33; 18; 164; 66; 0; 0; 0; 0; 0; 0; 0; 0; 0; 0; 0; 7] in
+  let resp := [1; 17; 0; 0; 33; 18; 164; 66; 0; 0; 0; 0; 0; 0; 0; 0; 0; 0; 0; 7] in
+  let c1 := fst (c_step true true tid_id (new_client 100 7 true None) (CStart (tid_id (drop 8 req)) req 5)) in
+  let c2 := fst (c_step true true tid_id c1 (CSetNow 1000000)) in
+  snd (c_step true true tid_id c2 (CDeliver resp)) = [OInvoke 0 5 (HRMsg resp)] /\ c_T (fst (c_step true true tid_id c2 (CDeliver resp))) = [].
+Proof. vm_compute. split; reflexivity. Qed.
